@@ -171,6 +171,7 @@ class MapTheory:
         self.Del = f('del', M, K, M)
         self.Empty = z3.Const('%s.empty' % name, M)
         self.Eq = f('eq', M, M, B)
+        self.Size = f('size', M, I)
         m, m2 = z3.Consts('m m2', M)
         k, k2 = z3.Consts('k k2', K)
         v = z3.Const('v', V)
@@ -190,6 +191,12 @@ class MapTheory:
                                                            patterns=[Has(m, k)]),
                            patterns=[Eq(m, m2)]))
         A.append(_FA([m, m2], z3.Implies(Eq(m, m2), m == m2), patterns=[Eq(m, m2)]))
+        Size = self.Size
+        A.append(_FA([m], Size(m) >= 0, patterns=[Size(m)]))
+        A.append(Size(self.Empty) == 0)
+        A.append(_FA([m, k, v], Size(Put(m, k, v)) == Size(m) + z3.If(Has(m, k), 0, 1), patterns=[Size(Put(m, k, v))]))
+        A.append(_FA([m, k], Size(Del(m, k)) == Size(m) - z3.If(Has(m, k), 1, 0), patterns=[Size(Del(m, k))]))
+        A.append(_FA([m, k], z3.Implies(Has(m, k), Size(m) >= 1), patterns=[z3.MultiPattern(Has(m, k), Size(m))]))
         self.axioms = A
         MapTheory.registry[name] = self
 
@@ -199,6 +206,8 @@ SeqI = SeqTheory('SeqI', I)                # bytes, bytearray, str (code points)
 SeqS = SeqTheory('SeqS', SeqI.sort)        # list of byte strings / strings
 Obj = z3.DeclareSort('Obj')                # opaque objects (external library values, callbacks, ...)
 SeqO = SeqTheory('SeqO', Obj)
+MapSO = MapTheory('MapSO', SeqI.sort, Obj)     # dict: str -> arbitrary object
+MapSS = MapTheory('MapSS', SeqI.sort, SeqI.sort)   # dict: str -> str
 
 # byte-range predicate on SeqI
 IsBytes = z3.Function('is_bytes', SeqI.sort, B)
